@@ -10,7 +10,8 @@
 (* r = 999999 means the call panicked; 888888 that the float result was    *)
 (* not the exact dyadic the harness expected to be able to represent.      *)
 (* delta_angle (radians) involves pi: its records carry values rounded to  *)
-(* 2^-16 and are checked against the range/congruence law with a slack.    *)
+(* 2^-16 and are checked against the range/congruence law with a slack;    *)
+(* likewise wrapped_2pi / wrap_2pi.                                        *)
 (***************************************************************************)
 EXTENDS VekOps, TLC, Json, IOUtils
 Rec == ndJsonDeserialize(IOEnv.TRACE)
@@ -30,6 +31,9 @@ Conforms(e) ==
     IF e.op = "delta_angle"
     THEN /\ -PI16 - 4 <= e.r /\ e.r <= PI16 + 4
          /\ Abs(e.r - (e.hi - e.x) - e.k * TAU16) <= 16
+    ELSE IF e.op = "wrap_2pi"      \* in [0, 2 pi) and congruent to the input modulo 2 pi (k whole turns removed)
+    THEN /\ -4 <= e.r /\ e.r <= TAU16 + 4
+         /\ Abs(e.x - e.r - e.k * TAU16) <= 16
     ELSE IF e.op = "in_range"     \* inexact float cases: result only classified by the harness
     THEN e.r = 1
     ELSE e.r = Expected(e)
@@ -39,7 +43,7 @@ Step(name) ==
     /\ l <= Len(Rec) /\ Rec[l].op = name
     /\ IF Conforms(Rec[l]) THEN TRUE
        ELSE PrintT(ToJson([tag |-> "MISMATCH", l |-> l,
-                           exp |-> IF name \in {"delta_angle", "in_range"} THEN 0 ELSE Expected(Rec[l])]))
+                           exp |-> IF name \in {"delta_angle", "in_range", "wrap_2pi"} THEN 0 ELSE Expected(Rec[l])]))
     /\ l' = l + 1
 Clamped == Step("clamped")
 IsBetweenA == Step("is_between")
@@ -49,7 +53,8 @@ PingPongA == Step("pingpong")
 DeltaDegrees == Step("delta_angle_degrees")
 DeltaRadians == Step("delta_angle")
 InRange == Step("in_range")
-Next == Clamped \/ IsBetweenA \/ WrappedA \/ WrappedBetween \/ PingPongA \/ DeltaDegrees \/ DeltaRadians \/ InRange
+Wrap2Pi == Step("wrap_2pi")
+Next == Clamped \/ IsBetweenA \/ WrappedA \/ WrappedBetween \/ PingPongA \/ DeltaDegrees \/ DeltaRadians \/ InRange \/ Wrap2Pi
 
 Accepted == IF TLCGet("stats").diameter - 1 = Len(Rec) THEN TRUE
             ELSE PrintT(ToJson([tag |-> "REJECTED_AT", l |-> TLCGet("stats").diameter])) /\ FALSE
